@@ -120,6 +120,13 @@ Definition own_names (k : kind) : list N := names (flat (all_of R k)).
 Definition plugin_named (k : kind) (n : N) : option plugin :=
   find (fun p => N.eqb (p_name p) n) (flat (all_of R k)).
 
+(* no new duplicates: what was appended to either list has pairwise different names, none enabled before *)
+Definition no_new_dups (cfg : config) (f s : list N) : bool :=
+  let before := names (cfg_fs cfg) ++ names (cfg_sa cfg) in
+  let x := skipn (length (cfg_fs cfg)) f in
+  let y := skipn (length (cfg_sa cfg)) s in
+  nodupN x && nodupN y && forallb (fun n => negb (memN n before)) (x ++ y).
+
 Definition case_spec_ok (cs : rcase) : bool :=
   match cs with
   | CValidateRaw req c obs => Bool.eqb obs (satisfies req c)
@@ -154,6 +161,7 @@ Definition case_spec_ok (cs : rcase) : bool :=
           forallb (fun d => forallb (fun e => memN e (f ++ s)) (p_required d)) (cfg_det cfg)
           && lN_eqb (firstn (length (cfg_fs cfg)) f) (names (cfg_fs cfg))
           && lN_eqb (firstn (length (cfg_sa cfg)) s) (names (cfg_sa cfg))
+          && no_new_dups cfg f s
       | Some cfg, None =>
           (* may fail only if some required name is no exact extractor name in either list *)
           existsb (fun d => existsb (fun e => negb (memN e (own_names KFs)) && negb (memN e (own_names KSa))) (p_required d)) (cfg_det cfg)
@@ -179,8 +187,9 @@ Definition case_spec_ok (cs : rcase) : bool :=
       option_eqb lN_eqb obs1 obs2 && intact
       && match obs1 with Some _ => forallb (is_key (names_of R k)) ns | None => negb (forallb (is_key (names_of R k)) ns) end
   | CEnableTwice fs sa det fake obs1 obs2 intact =>
-      (* idempotent, inputs untouched *)
+      (* idempotent, inputs untouched, no new duplicates *)
       option_eqb (fun a b => lN_eqb (fst a) (fst b) && lN_eqb (snd a) (snd b)) obs1 obs2 && intact
+      && match mk_cfg fs sa det fake, obs1 with Some cfg, Some (f, s) => no_new_dups cfg f s | _, _ => true end
   end.
 
 Fixpoint bad_indices {A} (ok : A -> bool) (l : list A) (i : N) : list N :=
